@@ -1,4 +1,8 @@
 pub mod c01;
+pub mod c07;
+pub mod c08;
+pub mod c09;
+pub mod c10;
 pub mod c16;
 
 use crate::runner::*;
@@ -19,6 +23,10 @@ pub const COMMON_ASSUMPTIONS: &[&str] = &[
 pub fn info(id: &str) -> Option<Info> {
     Some(match id {
         "C01" => Info { id: "C01", rule: c01::RULE, floor_classes: 100, assumptions: COMMON_ASSUMPTIONS },
+        "C07" => Info { id: "C07", rule: c07::RULE, floor_classes: 200, assumptions: COMMON_ASSUMPTIONS },
+        "C08" => Info { id: "C08", rule: c08::RULE, floor_classes: 200, assumptions: COMMON_ASSUMPTIONS },
+        "C09" => Info { id: "C09", rule: c09::RULE, floor_classes: 200, assumptions: COMMON_ASSUMPTIONS },
+        "C10" => Info { id: "C10", rule: c10::RULE, floor_classes: 200, assumptions: COMMON_ASSUMPTIONS },
         "C16" => Info { id: "C16", rule: c16::RULE, floor_classes: 40, assumptions: COMMON_ASSUMPTIONS },
         _ => return None,
     })
@@ -27,6 +35,10 @@ pub fn info(id: &str) -> Option<Info> {
 pub fn run(id: &str, ctx: &mut Ctx) {
     match id {
         "C01" => c01::run(ctx),
+        "C07" => c07::run(ctx),
+        "C08" => c08::run(ctx),
+        "C09" => c09::run(ctx),
+        "C10" => c10::run(ctx),
         "C16" => c16::run(ctx),
         _ => panic!("unknown property {}", id),
     }
